@@ -87,6 +87,21 @@ class StreamRW(Component):
                 if ln > 65535 or ln == 0:
                     f['expect'] = 'refuse'
                 out.append('streamrw ' + gen.fields_str(f))
+        # parameters no frame header can carry by itself (rates outside the table and the 8/16-bit fields, depths without a code):
+        # the write must be refused, or - if it is accepted - the frame must still come back from its own header
+        for rate, bps in [(768000, 16), (705600, 24), (65537, 16), (655351, 16), (655360, 16), (1048575, 16), (256000, 16), (255001, 8),
+                          (44100, 10), (44100, 7), (44100, 17), (44100, 21), (96000, 31), (44100, 1)]:
+            for prev in (0, 1):
+                f = dict(gen.option_fields(rng))
+                f['nf'] = prev + 1 + 1
+                if prev:
+                    f['f0'] = '44100:1:16:1,2,3,4'
+                pcm, _ = gen.pcm_multi(rng, 24, 2, bps)
+                f[f'f{prev}'] = f'{rate}:2:{bps}:{gen.join(pcm)}'
+                f[f'f{prev + 1}'] = '48000:1:16:5,6,7,8,9'
+                f['mode'] = 'clean'; f['lens'] = '1'
+                f['expect'] = 'refuse-or-readable'
+                out.append('streamrw ' + gen.fields_str(f))
         return out
     def expand(self, pcm):
         if '*' not in pcm:
@@ -111,6 +126,10 @@ class StreamRW(Component):
             if h == 'err' and cls == 'InvalidBlockSize':
                 return None
             return (f'{self.name}:oversize-accepted', 'FlacStreamWriter did not refuse (InvalidBlockSize) a write whose length no frame header can hold: ' + impl[:120])
+        if h != 'ok' and cf.get('expect') == 'refuse-or-readable':
+            if h == 'err' and 'frame' in f:
+                return None          # the writer refused it
+            return (f'{self.name}:accepted-frame-not-self-describing', 'FlacStreamWriter accepted parameters that no frame header can carry, and the frame it wrote cannot be read from its own header: ' + impl[:120])
         if h != 'ok':
             return (f'{self.name}:writer-refused:{cls}', 'FlacStreamWriter refused a subset-legal frame: ' + impl[:200])
         seq = f.get('seq', '').split(';')
@@ -1016,6 +1035,12 @@ class CtorGrid(Component):
         for fe in fes:
             out.append(f'ctor fe={fe} bps=32 ch=8 rate=1048575 bs=64 lpc=32 po=15 fill=200 calls=3')
             out.append(f'ctor fe={fe} bps=1 ch=1 rate=1 bs=16 lpc=32 po=15 fill=100')
+        # every documented partition order on blocks long and even enough for it to be tried (a block of 2^k samples admits order k)
+        for po in range(0, 16):
+            for bs, fill in ((128, 300), (4096, 4200), (32768, 32768)):
+                if bs == 32768 and po not in (6, 7, 14, 15):
+                    continue
+                out.append(f'ctor fe={("sample", "byte", "chan")[po % 3]} bps=16 ch=1 rate=44100 bs={bs} lpc=8 po={po} fill={fill}')
         return out
     def add_total(self, f, fill, tot):
         ch = int(f['ch']); bps = int(f['bps'])
@@ -1551,9 +1576,12 @@ PROPS['C06'] = dict(
 )
 
 PROPS['C08'] = dict(
-    module='FlacModel.Props.C08',
+    module='FlacModel.Props.C08b',
     theorems=['Flac.C08.splitFull_spec', 'Flac.C08.decomposition_unique', 'Flac.C08.write_inv', 'Flac.C08.writes_inv',
-              'Flac.C08.writer_chunking_indep', 'Flac.C08.finalize_chunking_indep', 'Flac.C08.partial_pcm_frame_dropped'],
+              'Flac.C08.writer_chunking_indep', 'Flac.C08.finalize_chunking_indep', 'Flac.C08.partial_pcm_frame_dropped',
+              'Flac.C08.i24_unsigned', 'Flac.C08.i24_back', 'Flac.C08.sampleOfLE_sampleBytes', 'Flac.C08.toLE_sampleBytes', 'Flac.C08.byteSample_sampleBytes',
+              'Flac.C08.byteFrontSamples_serialized', 'Flac.C08.byteFrontMd5_serialized', 'Flac.C08.splitFull_serialized',
+              'Flac.C08.byte_frontend_blocks', 'Flac.C08.byte_frontend_md5', 'Flac.C08.byte_order_indep'],
     components=[WriterHist()],
     rule='12 (quick) / 60 (thorough) PCM inputs (1-8 channels, depths 7-32, lengths around the block size) x byte/sample/channel writer x both byte orders x '
          'partitions into write calls (every single split point for inputs up to 80 units, two-split, all-ones, random) x trailing partial PCM frames; the harness '
@@ -1562,17 +1590,24 @@ PROPS['C08'] = dict(
     claim='writer_chunking_indep / finalize_chunking_indep: for EVERY list of write calls the blocks handed to the encoder (and the carry-over) equal those of one call '
           'with the concatenated input - by the invariant write_inv (induction over the call list) and uniqueness of the block decomposition; '
           'partial_pcm_frame_dropped: what is encoded is exactly the input truncated to whole PCM frames and no empty block is ever encoded. The three front-ends are '
-          'instances of one generic machine (unit = byte / sample / PCM frame).',
+          'instances of one generic machine (unit = byte / sample / PCM frame). Front-end and byte order (C08b, Model/ByteFront.lean = FlacByteWriter + byteorder.rs, with the '
+          '24-bit conversions and the direction of bytes_to_le regenerated from the source): byteSample_sampleBytes (bytes_to_iN after bytes_to_le inverts iN_to_bytes of either '
+          'byte order on the whole range of 1-4 bytes, incl. the crate\'s own 24-bit rule: i24_unsigned, i24_back); byte_frontend_blocks: the samples serialised in either byte '
+          'order and cut into write calls anywhere, also inside a sample, reach the encoder as exactly the blocks the sample front-end makes of them in one call; '
+          'byte_frontend_md5: the MD5 is fed the little-endian serialisation of exactly those samples whatever the caller\'s byte order; byte_order_indep.',
     note='Byte identity additionally needs the frame encoder to be a function of its block: true modulo the f64 analysis, which is exercised by the reference '
-         'comparison on every case (and across runs), not proved. MD5 and byte-order conversion per block vs per stream are checked by the correspondence.',
+         'comparison on every case (and across runs), not proved. The per-block order of conversion, MD5 update and encoding is a shape tripwire (shapeByteWriterConvertsPerBlock); '
+         'the driver predicts lengths, total and MD5 of every fe=byte case through Model/ByteFront.lean.',
     trusted_base=COMMON_TRUST,
     assumptions=['a block is a whole number of PCM frames (q divides F) - true by construction of frame_byte_size / frame_sample_size'],
 )
 
 PROPS['C09'] = dict(
-    module='FlacModel.Props.C09',
+    module='FlacModel.Props.C09b',
     theorems=['Flac.C09.record_points', 'Flac.C09.seekpoints_invariant', 'Flac.C09.truePoints_truthful', 'Flac.C09.filter_sublist',
-              'Flac.C09.written_points_truthful', 'Flac.C09.points_sorted', 'Flac.C09.finalize_preserves_metadata_len', 'Flac.C09.frame_size_extrema'],
+              'Flac.C09.written_points_truthful', 'Flac.C09.points_sorted', 'Flac.C09.finalize_preserves_metadata_len', 'Flac.C09.frame_size_extrema',
+              'Flac.C09.placeholders_match', 'Flac.C09.filter_length_key', 'Flac.C09.reserved_slots_exact', 'Flac.C09.regenerated_equals_written_declared',
+              'Flac.C09.regenerated_equals_written_padding', 'Flac.C09.regenerate_defined'],
     components=[EncFile()],
     rule='450 (quick) / 30000 (thorough) files: byte/sample/channel writer x seek policy {off, default 10 s, every 1/2/5 frames, every 1/2/255 s at low rates} x '
          'total declared or discovered at finalize x padding {absent, too small for a table, exactly one/two points, ample, default} x writer pre-positioned at a '
